@@ -319,13 +319,14 @@ def tybits(ty):
 class Exec:
     """executes one function (following calls into the module) on a State; forks on symbolic branches"""
 
-    def __init__(self, module, ctx, consts=None, hooks=None, max_paths=64, loop_bound=8, solver_timeout=20000):
+    def __init__(self, module, ctx, consts=None, hooks=None, max_paths=64, loop_bound=8, solver_timeout=20000, prune=False):
         self.m, self.c = module, ctx
         self.consts = consts or {}  # lazy-static name -> list of 64-bit limbs
         self.hooks = hooks or {}  # callee-name fragment -> python handler(exec, state, args) -> ret
         self.max_paths = max_paths
         self.loop_bound = loop_bound
         self.solver_timeout = solver_timeout
+        self.prune = prune
         self.queries = 0
         self.instr_seen = set()
         self.funcs_seen = set()
@@ -479,8 +480,14 @@ class Exec:
                     continue
                 if kind == 'fork':
                     cond, bt, bf = res[1], res[2], res[3]
-                    ft = self.feasible(st, cond)
-                    ff = self.feasible(st, bnot(cond))
+                    # pruning is only needed to bound loops; straight-line forks are kept unpruned (an
+                    # infeasible path has an unsatisfiable path condition: its goals are discharged trivially)
+                    inloop = visits.get(bt, 0) > 0 or visits.get(bf, 0) > 0 or visits.get(blk, 0) > 1
+                    if self.prune or inloop:
+                        ft = self.feasible(st, cond)
+                        ff = self.feasible(st, bnot(cond))
+                    else:
+                        ft = ff = True
                     if ft and ff:
                         npaths += 1
                         if npaths > self.max_paths:
